@@ -87,7 +87,7 @@ def runScan (kind : String) (items : List Item) (m : Item → Bool) (doubleEnded
 
 def predFlush (st : PredState) : List String :=
   if !st.active then [] else
-  if st.bad then ["bad-input"] else
+  if st.bad || !(st.ops.all (opSiteOk st.sites.length)) then ["bad-input"] else
   let w := captureRun [.all] none st.sites st.ops.reverse
   if w.panicked then ["panic"] else
   let storage := w.storages.getD 0 {}
